@@ -798,6 +798,10 @@ func (s *Server) SetScheduleConfig(cfg config.ScheduleConfig) error {
 	if err := cfg.Deprecated(); err != nil {
 		return err
 	}
+	if cfg.StoreLimit == nil {
+		// as ScheduleConfig.adjust does at start-up: the store limit setters assign into this map
+		cfg.StoreLimit = make(map[uint64]config.StoreLimitConfig)
+	}
 	old := s.persistOptions.GetScheduleConfig()
 	cfg.SchedulersPayload = nil
 	s.persistOptions.SetScheduleConfig(&cfg)
